@@ -569,6 +569,23 @@ pub fn cmd_tamper(args: &[String]) {
                         }
                     }
                 }
+                // classic pull into a buffer larger than the message (the classic contract allows it): nothing of a rejected
+                // frame may appear anywhere in it
+                if *kind != "none" && x.len() >= ABYTES {
+                    rep.evaluations += 1;
+                    let mut d2 = fresh_pull(k, h);
+                    let big: Vec<u8> = (0..(x.len() - ABYTES + 9)).map(|i| 0x3Cu8 ^ (i as u8).wrapping_mul(7)).collect();
+                    let mut out2 = big.clone();
+                    let mut t2 = 0xEEu8;
+                    match catch(|| cs::crypto_secretstream_xchacha20poly1305_pull(&mut d2, &mut out2, &mut t2, x, a.as_deref())) {
+                        Ok(Err(_)) => {
+                            if t2 != 0xEE { rep.fail("C17 classic stream pull: tag output updated by a rejected pull", json!({"mlen": mlen, "how": how, "kind": kind, "buffer": "oversized"})); }
+                            if out2 != big && !out2.iter().all(|b| *b == 0) { rep.fail("C17 classic stream pull: message buffer modified by a rejected pull (buffer larger than the message)", json!({"mlen": mlen, "how": how, "kind": kind, "seed": seed})); }
+                        }
+                        Ok(Ok(_)) => rep.fail(&format!("C02 classic stream pull: accepts a ciphertext with {}", kind), json!({"mlen": mlen, "how": how, "buffer": "oversized"})),
+                        Err(_) => {}   // refusing the buffer shape by panic is the caller-side contract, as for the box opens
+                    }
+                }
                 // object API
                 rep.evaluations += 1;
                 let mut o: DryocStream<Pull> = DryocStream::verif_from_state(fresh_pull(k, h));
